@@ -837,4 +837,335 @@ Proof.
       rewrite O, O1, U1, D1. cbn [spec_run map embed]. rewrite <- app_assoc. reflexivity.
 Qed.
 
+(* ---------- row-major position of a cell in the transmitted list ---------- *)
+
+Lemma map_zrange_nth {A} (g : Z -> A) w c d : 0 <= c < w -> nth (Z.to_nat c) (map g (zrange 0 w)) d = g c.
+Proof.
+  intros Hc. rewrite (nth_indep _ d (g 0)) by (rewrite map_length, zrange_length; lia).
+  rewrite map_nth. unfold zrange. rewrite zrange_aux_nth by lia. f_equal. lia.
+Qed.
+
+Lemma flat_table_nth {A} (f : Z -> Z -> A) w d : 0 <= w -> forall n a r c,
+  0 <= r < Z.of_nat n -> 0 <= c < w ->
+  nth (Z.to_nat (r * w + c)) (flat_map (fun x => map (f x) (zrange 0 w)) (zrange_aux n a)) d = f (a + r) c.
+Proof.
+  intros Hw. induction n as [|n IH]; intros a r c Hr Hc; [lia|].
+  cbn [zrange_aux flat_map].
+  assert (L : length (map (f a) (zrange 0 w)) = Z.to_nat w) by (rewrite map_length, zrange_length; f_equal; lia).
+  destruct (Z.eq_dec r 0) as [E|E].
+  - subst r. rewrite app_nth1 by (rewrite L; lia).
+    replace (0 * w + c) with c by ring. rewrite map_zrange_nth by lia. f_equal. lia.
+  - rewrite app_nth2 by (rewrite L; nia). rewrite L.
+    replace (Z.to_nat (r * w + c) - Z.to_nat w)%nat with (Z.to_nat ((r - 1) * w + c)) by nia.
+    rewrite IH by lia. f_equal. lia.
+Qed.
+
+Lemma flat_table_length {A} (f : Z -> Z -> A) w : 0 <= w -> forall n a,
+  length (flat_map (fun x => map (f x) (zrange 0 w)) (zrange_aux n a)) = (n * Z.to_nat w)%nat.
+Proof.
+  intros Hw. induction n as [|n IH]; intros a; cbn [zrange_aux flat_map]; [reflexivity|].
+  rewrite app_length, IH, map_length, zrange_length. replace (w - 0) with w by ring. lia.
+Qed.
+
+Lemma spec_matrix_nth mo h w (ss : list stage) dtx r c d : 0 <= w -> 0 <= r < h -> 0 <= c < w ->
+  nth (Z.to_nat (r * w + c)) (spec_matrix C set_tx black_tx mo h w ss dtx) d
+  = spec_cell C set_tx black_tx mo h w ss dtx r c.
+Proof.
+  intros Hw Hr Hc. unfold spec_matrix, zrange at 2.
+  rewrite (flat_table_nth (fun r c => spec_cell C set_tx black_tx mo h w ss dtx r c) w d Hw) by lia.
+  f_equal.
+Qed.
+
+Lemma spec_matrix_length mo h w (ss : list stage) dtx : 0 <= h -> 0 <= w ->
+  length (spec_matrix C set_tx black_tx mo h w ss dtx) = Z.to_nat (h * w).
+Proof.
+  intros Hh Hw. unfold spec_matrix, zrange at 2.
+  rewrite (flat_table_length (fun r c => spec_cell C set_tx black_tx mo h w ss dtx r c) w Hw). nia.
+Qed.
+
+Lemma cells_ext {A} h w (l1 l2 : list A) d : 0 <= h -> 0 <= w ->
+  length l1 = Z.to_nat (h * w) -> length l2 = Z.to_nat (h * w) ->
+  (forall r c, 0 <= r < h -> 0 <= c < w -> nth (Z.to_nat (r * w + c)) l1 d = nth (Z.to_nat (r * w + c)) l2 d) ->
+  l1 = l2.
+Proof.
+  intros Hh Hw L1 L2 Hn. apply (nth_ext _ _ d d); [rewrite L1, L2; reflexivity|].
+  intros n Hlt. rewrite L1 in Hlt.
+  destruct (Z.eq_dec w 0) as [Hw0|Hw0]; [subst w; replace (h * 0) with 0 in Hlt by ring; lia|].
+  set (r := Z.of_nat n / w). set (c := Z.of_nat n mod w).
+  assert (Hc : 0 <= c < w) by (apply Z.mod_pos_bound; lia).
+  assert (En : Z.of_nat n = r * w + c) by (unfold r, c; rewrite Z.mul_comm; apply Z.div_mod; lia).
+  assert (Hr : 0 <= r < h).
+  { split; [apply Z.div_pos; lia|]. apply Z.div_lt_upper_bound; [lia|]. nia. }
+  replace n with (Z.to_nat (r * w + c)) by lia. apply Hn; assumption.
+Qed.
+
+(* ---------- the named statements of C15 ---------- *)
+
+Lemma compile_single (s : stmt C) : compile [s] = compile_stmt s ++ [].
+Proof. unfold compile. cbn [flat_map]. reflexivity. Qed.
+
+(* the final colour of a cell, as the specification words it *)
+Definition cell_tx (mo : mode) (h w : Z) (ss : list stage) (d : option C) (r c : Z) : C :=
+  match last_covering C h w ss r c with
+  | Some col => std (as_raw_color C conv mo col)
+  | None => match d with Some x => std x | None => std black end
+  end.
+
+Lemma spec_cell_cell_tx mo h w ss d r c :
+  spec_cell C set_tx black_tx mo h w ss (option_map std d) r c = cell_tx mo h w ss d r c.
+Proof. unfold spec_cell, cell_tx, set_tx, black_tx. destruct (last_covering C h w ss r c); [reflexivity|]. destruct d; reflexivity. Qed.
+
+Theorem zone_exact l c a b st :
+  zone_ok a b = true ->
+  let e := match b with Some y => y | None => a end in
+  exists st', run (compile [SZone l c a b]) st = (st', true) /\
+    out st' = out st ++ [EZone l (index_of a) (index_of e + 1) (std (as_raw_color C conv (unit_mode st) c))] /\
+    forall z, In z (zrange (index_of a) (index_of e + 1)) <-> index_of a <= z <= index_of e.
+Proof.
+  intros Hok e.
+  destruct (script_meets_spec [SZone l c a b] st) as (st' & E & O); [cbn [forallb stmt_ok]; rewrite Hok; reflexivity|].
+  exists st'. split; [exact E|]. split.
+  - rewrite O. reflexivity.
+  - intros z. rewrite zrange_In. lia.
+Qed.
+
+Theorem matrix_cells l h w (ss : list stage) st :
+  0 <= h -> 0 <= w -> forallb (stage_ok C h w) ss = true ->
+  exists st' cells, run (compile [SBlock l h w ss]) st = (st', true) /\
+    out st' = out st ++ [EMatrix l h w cells] /\
+    length cells = Z.to_nat (h * w) /\
+    forall r c, 0 <= r < h -> 0 <= c < w ->
+      nth (Z.to_nat (r * w + c)) cells None = Some (cell_tx (unit_mode st) h w ss (default st) r c).
+Proof.
+  intros Hh Hw Hok.
+  destruct (script_meets_spec [SBlock l h w ss] st) as (st' & E & O).
+  { cbn [forallb stmt_ok]. rewrite Hok.
+    replace (0 <=? h) with true by (symmetry; apply Z.leb_le; exact Hh).
+    replace (0 <=? w) with true by (symmetry; apply Z.leb_le; exact Hw). reflexivity. }
+  exists st'. eexists. split; [exact E|]. split; [rewrite O; reflexivity|]. split.
+  - rewrite map_length. apply spec_matrix_length; assumption.
+  - intros r c Hr Hc.
+    rewrite (nth_indep _ None (Some black)) by (rewrite map_length, spec_matrix_length by assumption; nia).
+    rewrite map_nth. rewrite spec_matrix_nth by assumption. rewrite spec_cell_cell_tx. reflexivity.
+Qed.
+
+(* exactly one tile message, carrying the whole matrix, and nothing else, for either form *)
+Theorem matrix_sent_once (s : stmt C) st :
+  (exists l h w ss, s = SBlock l h w ss) \/ (exists l h w sg, s = SInline l h w sg) ->
+  stmt_ok C s = true ->
+  exists st' l h w cells, run (compile [s]) st = (st', true) /\
+    out st' = out st ++ [EMatrix l h w cells] /\ length cells = Z.to_nat (h * w).
+Proof.
+  intros Hform Hok.
+  destruct (script_meets_spec [s] st) as (st' & E & O); [cbn [forallb]; rewrite Hok; reflexivity|].
+  destruct Hform as [(l & h & w & ss & Es)|(l & h & w & sg & Es)]; subst s;
+    cbn [stmt_ok] in Hok;
+    apply andb_true_iff in Hok; destruct Hok as [Hok _]; apply andb_true_iff in Hok; destruct Hok as [Hh Hw];
+    apply Z.leb_le in Hh; apply Z.leb_le in Hw;
+    exists st', l, h, w; eexists; (split; [exact E|]); (split; [rewrite O; reflexivity|]);
+    rewrite map_length; apply spec_matrix_length; assumption.
+Qed.
+
+Theorem inline_equals_block l h w (sg : stage) st :
+  run (compile [SInline l h w sg]) st = run (compile [SBlock l h w [sg]]) st.
+Proof. rewrite !compile_single. apply inline_is_block. Qed.
+
+(* two stages that denote the same ranges and carry the same colour are interchangeable *)
+Definition stage_equiv (h w : Z) (s s' : stage) : Prop :=
+  clause_range (s_rows s) h = clause_range (s_rows s') h /\
+  clause_range (s_cols s) w = clause_range (s_cols s') w /\
+  s_colour s = s_colour s'.
+
+Lemma equiv_last_covering h w (ss ss' : list stage) r c :
+  Forall2 (stage_equiv h w) ss ss' -> last_covering C h w ss r c = last_covering C h w ss' r c.
+Proof.
+  induction 1 as [|s s' ss ss' (E1 & E2 & E3) _ IH]; [reflexivity|].
+  cbn [last_covering]. rewrite IH. unfold covers. rewrite E1, E2, E3. reflexivity.
+Qed.
+
+Lemma equiv_stage_ok h w (ss ss' : list stage) :
+  Forall2 (stage_equiv h w) ss ss' -> forallb (stage_ok C h w) ss = forallb (stage_ok C h w) ss'.
+Proof.
+  induction 1 as [|s s' ss ss' (E1 & E2 & E3) _ IH]; [reflexivity|].
+  cbn [forallb]. rewrite IH. unfold stage_ok. rewrite E1, E2. reflexivity.
+Qed.
+
+Lemma equiv_refl h w (ss : list stage) : Forall2 (stage_equiv h w) ss ss.
+Proof. induction ss; constructor; [repeat split|assumption]. Qed.
+
+Theorem block_depends_on_ranges_only l h w (ss ss' : list stage) st :
+  0 <= h -> 0 <= w -> forallb (stage_ok C h w) ss = true -> Forall2 (stage_equiv h w) ss ss' ->
+  exists st1 st2, run (compile [SBlock l h w ss]) st = (st1, true) /\
+    run (compile [SBlock l h w ss']) st = (st2, true) /\ out st1 = out st2.
+Proof.
+  intros Hh Hw Hok Heq.
+  assert (Hok' : forallb (stage_ok C h w) ss' = true) by (rewrite <- (equiv_stage_ok h w ss ss' Heq); exact Hok).
+  destruct (matrix_cells l h w ss st Hh Hw Hok) as (st1 & cells1 & E1 & O1 & L1 & C1).
+  destruct (matrix_cells l h w ss' st Hh Hw Hok') as (st2 & cells2 & E2 & O2 & L2 & C2).
+  exists st1, st2. split; [exact E1|]. split; [exact E2|].
+  rewrite O1, O2. f_equal. f_equal. f_equal.
+  apply (cells_ext h w _ _ None Hh Hw L1 L2).
+  intros r c Hr Hc. rewrite (C1 r c Hr Hc), (C2 r c Hr Hc). unfold cell_tx.
+  rewrite (equiv_last_covering h w ss ss' r c Heq). reflexivity.
+Qed.
+
+Lemma equiv_middle h w (ss1 ss2 : list stage) s s' :
+  stage_equiv h w s s' -> Forall2 (stage_equiv h w) (ss1 ++ s :: ss2) (ss1 ++ s' :: ss2).
+Proof.
+  intros H. apply Forall2_app; [apply equiv_refl|]. constructor; [exact H|apply equiv_refl].
+Qed.
+
+(* no row clause = rows 0 .. height-1; no column clause = columns 0 .. width-1 *)
+Theorem omitted_means_full_extent l h w (ss1 ss2 : list stage) rows cols cf cf' col st :
+  0 <= h -> 0 <= w ->
+  let full n := Some (mkClause (NInt 0) (Some (NInt (n - 1)))) in
+  forall s s', (s = mkStage None cols cf col /\ s' = mkStage (full h) cols cf' col) \/
+               (s = mkStage rows None cf col /\ s' = mkStage rows (full w) cf' col) ->
+  forallb (stage_ok C h w) (ss1 ++ s :: ss2) = true ->
+  exists st1 st2, run (compile [SBlock l h w (ss1 ++ s :: ss2)]) st = (st1, true) /\
+    run (compile [SBlock l h w (ss1 ++ s' :: ss2)]) st = (st2, true) /\ out st1 = out st2.
+Proof.
+  intros Hh Hw full s s' Hs Hok.
+  apply block_depends_on_ranges_only; try assumption. apply equiv_middle.
+  destruct Hs as [[E E']|[E E']]; subst s s'; repeat split.
+Qed.
+
+(* `row a` = `row a a` *)
+Theorem omitted_end_equals_start l h w (ss1 ss2 : list stage) a rows cols cf cf' col st :
+  0 <= h -> 0 <= w ->
+  let one := Some (mkClause a None) in let two := Some (mkClause a (Some a)) in
+  forall s s', (s = mkStage one cols cf col /\ s' = mkStage two cols cf' col) \/
+               (s = mkStage rows one cf col /\ s' = mkStage rows two cf' col) ->
+  forallb (stage_ok C h w) (ss1 ++ s :: ss2) = true ->
+  exists st1 st2, run (compile [SBlock l h w (ss1 ++ s :: ss2)]) st = (st1, true) /\
+    run (compile [SBlock l h w (ss1 ++ s' :: ss2)]) st = (st2, true) /\ out st1 = out st2.
+Proof.
+  intros Hh Hw one two s s' Hs Hok.
+  apply block_depends_on_ranges_only; try assumption. apply equiv_middle.
+  destruct Hs as [[E E']|[E E']]; subst s s'; repeat split.
+Qed.
+
+(* a cell covered by a stage carries exactly what a plain `set` of that stage's colour
+   transmits in the same unit mode *)
+Theorem cell_conversion_is_set_conversion l l' h w (ss : list stage) st st0 r c col :
+  0 <= h -> 0 <= w -> forallb (stage_ok C h w) ss = true ->
+  unit_mode st0 = unit_mode st -> 0 <= r < h -> 0 <= c < w ->
+  last_covering C h w ss r c = Some col ->
+  exists st' cells stp tx,
+    run (compile [SBlock l h w ss]) st = (st', true) /\ out st' = out st ++ [EMatrix l h w cells] /\
+    run (compile [SPlain l' col]) st0 = (stp, true) /\ out stp = out st0 ++ [ESet l' tx] /\
+    nth (Z.to_nat (r * w + c)) cells None = Some tx /\
+    tx = std (as_raw_color C conv (unit_mode st) col).
+Proof.
+  intros Hh Hw Hok Hm Hr Hc Hcov.
+  destruct (matrix_cells l h w ss st Hh Hw Hok) as (st' & cells & E & O & L & Cs).
+  exists st', cells. eexists. eexists. split; [exact E|]. split; [exact O|].
+  split; [reflexivity|]. cbn [out]. split; [reflexivity|]. split.
+  - rewrite (Cs r c Hr Hc). unfold cell_tx. rewrite Hcov, Hm. reflexivity.
+  - rewrite Hm. reflexivity.
+Qed.
+
+(* what _as_raw_matrix does to a cell on either shape of the source (no shape lemma used):
+   with the repair of D25 the colour is converted as it is, on the pinned text it is
+   clamped and rounded first *)
+Lemma as_raw_matrix_cell_shape h w mo (m : cmatrix) r c :
+  wf h w (m_rows m) -> 0 <= r < h -> 0 <= c < w ->
+  cell (m_rows (as_raw_matrix C std conv mo m)) r c =
+  option_map (fun x => match mo with
+                       | Raw => x
+                       | _ => conv mo (if shape_as_raw_matrix_unrounded then x else std x)
+                       end) (cell (m_rows m) r c).
+Proof.
+  intros Hwf Hr Hc. unfold as_raw_matrix.
+  destruct mo; cbn [mat_map m_rows].
+  - rewrite (cell_map h w) by assumption. destruct (cell (m_rows m) r c); destruct shape_as_raw_matrix_unrounded; reflexivity.
+  - destruct (cell (m_rows m) r c); reflexivity.
+  - rewrite (cell_map h w) by assumption. destruct (cell (m_rows m) r c); destruct shape_as_raw_matrix_unrounded; reflexivity.
+Qed.
+
+(* ---------- outside the domain ---------- *)
+
+(* a stage with non-empty ranges and a number outside [-h, h) x [-w, w) raises IndexError:
+   the script stops there and the block transmits nothing *)
+Theorem out_of_range_aborts l h w (ss1 ss2 : list stage) (s : stage) st t b le ri :
+  0 <= h -> 0 <= w -> forallb (stage_ok C h w) ss1 = true ->
+  clause_range (s_rows s) h = (t, b) -> clause_range (s_cols s) w = (le, ri) ->
+  t <= b -> le <= ri -> (t < - h \/ h <= b \/ le < - w \/ w <= ri) ->
+  exists st', run (compile [SBlock l h w (ss1 ++ s :: ss2)]) st = (st', false) /\ out st' = out st.
+Proof.
+  intros Hh Hw Hok Er Ec Htb Hlr Hout.
+  set (st0 := mkState (unit_mode st) (first_row st) (last_row st) (first_column st) (last_column st)
+                      (first_zone st) (last_zone st) (operand st) l (KMatrix h w)
+                      (colour st) (default st) (Some (new_from_constant C h w None)) (out st)).
+  assert (E0 : run (compile [SBlock l h w (ss1 ++ s :: ss2)]) st
+               = run (flat_map compile_stage ss1 ++ (compile_stage s ++ flat_map compile_stage ss2 ++ matrix_tail C ++ [])) st0).
+  { rewrite compile_single. unfold compile_stmt. rewrite flat_map_app. cbn [flat_map]. rewrite <- !app_assoc. reflexivity. }
+  destruct (run_stages h w ss1 st0 (new_from_constant C h w None)
+              (compile_stage s ++ flat_map compile_stage ss2 ++ matrix_tail C ++ []))
+    as (st1 & m1 & E1 & (U1 & N1 & K1 & D1 & O1) & M1 & H1 & W1 & Wf1 & C1);
+    try reflexivity; [apply new_from_constant_wf; assumption|exact Hok|].
+  rewrite E0, E1. unfold compile_stage. rewrite <- app_comm_cons. rewrite <- app_assoc.
+  rewrite run_stage_operand. cbn [app run]. rewrite (exec_color_stage s st1 m1 M1).
+  rewrite (overlay_bad m1 _ _ _ _ (s_colour s) t b le ri).
+  - eexists. split; [reflexivity|]. cbn [stage_regs out]. rewrite O1. reflexivity.
+  - rewrite H1, W1. exact Wf1.
+  - rewrite norm_clause, H1. exact Er.
+  - rewrite norm_clause, W1. exact Ec.
+  - exact Htb.
+  - exact Hlr.
+  - rewrite H1, W1. exact Hout.
+Qed.
+
+(* numbers in [-h, 0) x [-w, 0) count from the end, as Python list indices do *)
+Theorem negative_index_wraps (m : cmatrix) top bottom left right col t b le ri :
+  let h := m_height m in let w := m_width m in
+  wf h w (m_rows m) ->
+  norm_pair (option_map index_of top) (option_map index_of bottom) h = (t, b) ->
+  norm_pair (option_map index_of left) (option_map index_of right) w = (le, ri) ->
+  - h <= t -> b < h -> - w <= le -> ri < w ->
+  exists m', overlay_color m top bottom left right col = Some m' /\
+    forall rr cc, 0 <= rr < h -> 0 <= cc < w ->
+      ((exists x y, t <= x <= b /\ le <= y <= ri /\ rr = wrap h x /\ cc = wrap w y) ->
+         cell (m_rows m') rr cc = Some col) /\
+      (~ (exists x y, t <= x <= b /\ le <= y <= ri /\ rr = wrap h x /\ cc = wrap w y) ->
+         cell (m_rows m') rr cc = cell (m_rows m) rr cc).
+Proof.
+  intros h w Hwf Er Ec H1 H2 H3 H4.
+  destruct (overlay_ok m top bottom left right col t b le ri Hwf Er Ec) as (m' & E & _ & _ & _ & Cs).
+  { right. right. repeat split; assumption. }
+  exists m'. split; [exact E|]. intros rr cc Hr Hc. destruct (Cs rr cc Hr Hc) as [Ca Cb]. split.
+  - intros (x & y & Hx & Hy & Ex & Ey). apply Ca. split.
+    + exists x. split; [apply zrange_In; lia|exact Ex].
+    + exists y. split; [apply zrange_In; lia|exact Ey].
+  - intros Hn. apply Cb. intros [[x [Hx Ex]] [y [Hy Ey]]]. apply Hn. exists x, y.
+    apply zrange_In in Hx. apply zrange_In in Hy. repeat split; try lia; assumption.
+Qed.
+
+(* a reversed range addresses nothing: the stage can be dropped *)
+Theorem reversed_range_colours_nothing l h w (ss1 ss2 : list stage) (s : stage) st :
+  0 <= h -> 0 <= w -> forallb (stage_ok C h w) (ss1 ++ s :: ss2) = true ->
+  (range_empty (clause_range (s_rows s) h) = true \/ range_empty (clause_range (s_cols s) w) = true) ->
+  exists st1 st2, run (compile [SBlock l h w (ss1 ++ s :: ss2)]) st = (st1, true) /\
+    run (compile [SBlock l h w (ss1 ++ ss2)]) st = (st2, true) /\ out st1 = out st2.
+Proof.
+  intros Hh Hw Hok Hemp.
+  assert (Hok2 : forallb (stage_ok C h w) (ss1 ++ ss2) = true).
+  { rewrite forallb_app in *. cbn [forallb] in Hok. apply andb_true_iff in Hok. destruct Hok as [A B].
+    apply andb_true_iff in B. destruct B as [_ B]. rewrite A, B. reflexivity. }
+  destruct (matrix_cells l h w _ st Hh Hw Hok) as (st1 & cells1 & E1 & O1 & L1 & C1).
+  destruct (matrix_cells l h w _ st Hh Hw Hok2) as (st2 & cells2 & E2 & O2 & L2 & C2).
+  exists st1, st2. split; [exact E1|]. split; [exact E2|]. rewrite O1, O2. f_equal. f_equal. f_equal.
+  apply (cells_ext h w _ _ None Hh Hw L1 L2). intros r c Hr Hc.
+  rewrite (C1 r c Hr Hc), (C2 r c Hr Hc). f_equal. unfold cell_tx.
+  replace (last_covering C h w (ss1 ++ s :: ss2) r c) with (last_covering C h w (ss1 ++ ss2) r c); [reflexivity|].
+  clear - Hemp. induction ss1 as [|x ss1 IH]; cbn [app last_covering].
+  - replace (covers C h w s r c) with false; [destruct (last_covering C h w ss2 r c); reflexivity|].
+    unfold covers, in_range, range_empty in *. symmetry.
+    destruct Hemp as [H|H]; apply Z.ltb_lt in H; apply andb_false_iff; [left|right];
+      apply andb_false_iff; destruct (Z_le_dec (fst (clause_range (s_rows s) h)) r);
+      destruct (Z_le_dec (fst (clause_range (s_cols s) w)) c);
+      try (left; apply Z.leb_gt; lia); try (right; apply Z.leb_gt; lia).
+  - rewrite IH. reflexivity.
+Qed.
+
 End Proofs.
